@@ -241,6 +241,7 @@ std::unique_ptr<OsslCtx> OsslCtx::create(const OsslCtxConfig &cfg, std::string *
     if (!cfg.ems) on |= SSL_OP_NO_EXTENDED_MASTER_SECRET;
     if (!cfg.etm) on |= SSL_OP_NO_ENCRYPT_THEN_MAC;
     if (cfg.server_pref) on |= SSL_OP_CIPHER_SERVER_PREFERENCE;
+    if (cfg.legacy_server_connect) on |= SSL_OP_LEGACY_SERVER_CONNECT;
     if (cfg.dtls) { on |= SSL_OP_NO_QUERY_MTU; if (cfg.dtls_cookie) on |= SSL_OP_COOKIE_EXCHANGE; }
     SSL_CTX_set_options(ctx, on);
     if (cfg.num_tickets >= 0) SSL_CTX_set_num_tickets(ctx, (size_t) cfg.num_tickets);
@@ -253,7 +254,7 @@ std::unique_ptr<OsslCtx> OsslCtx::create(const OsslCtxConfig &cfg, std::string *
     if (cfg.dtls && cfg.server) { SSL_CTX_set_cookie_generate_cb(ctx, cookie_gen_cb); SSL_CTX_set_cookie_verify_cb(ctx, cookie_verify_cb); }
     SSL_CTX_set_info_callback(ctx, info_cb);
     SSL_CTX_set_msg_callback(ctx, msg_cb);
-    SSL_CTX_set_mode(ctx, SSL_MODE_AUTO_RETRY);
+    SSL_CTX_set_mode(ctx, SSL_MODE_AUTO_RETRY | (cfg.auto_chain ? 0 : SSL_MODE_NO_AUTO_CHAIN));
     ERR_clear_error();
     return o;
 }
@@ -467,6 +468,7 @@ bool OsslConn::peer_cert_present() const {
     return x != nullptr;
 }
 long OsslConn::verify_result() const { return p->ssl ? SSL_get_verify_result(p->ssl) : -1; }
+bool OsslConn::secure_renegotiation() const { return p->ssl && SSL_get_secure_renegotiation_support(p->ssl) == 1; }
 bool OsslConn::ems_negotiated() const { return p->ssl && SSL_get_extms_support(p->ssl) == 1; }
 const std::string &OsslConn::hs_trace() const { return p->trace; }
 int OsslConn::client_hellos() const { return p->n_ch; }
